@@ -149,7 +149,7 @@ func Universe() []UVal {
 		{Name: "mnil", Go: map[string]any(nil)},
 		{Name: "mapslice", Go: yaml.MapSlice{{Key: "a", Value: 1}, {Key: 2, Value: "two"}, {Key: nil, Value: nil}}, Small: true},
 		{Name: "time", Go: fixed, Small: true},
-		{Name: "timeptr", Go: &fixed},
+		{Name: "timeptr", Go: &fixed}, {Name: "timefar", Go: time.Date(10000, 1, 2, 3, 4, 5, 0, time.UTC)}, {Name: "timezero", Go: time.Time{}},
 		{Name: "struct", Go: ds2, Small: true},
 		{Name: "anonstructA", Go: struct {
 			Name string
@@ -180,6 +180,7 @@ func Universe() []UVal {
 		{Name: "embednil", Go: EmbedOuter{Name: "outer"}, Small: true}, {Name: "embednilptr", Go: &EmbedOuter{}}, {Name: "embedset", Go: EmbedOuter{EmbedInner: &EmbedInner{Count: 4}}},
 		{Name: "mapslicekeys", Go: yaml.MapSlice{{Key: []int{3, 1, 2}, Value: "slicekey"}, {Key: map[string]any{"a": 1}, Value: 2}, {Key: "a", Value: 3}, {Key: []string{"b", "a"}, Value: 4}}, Small: true},
 		{Name: "uintptr", Go: uintptr(7)},
+		{Name: "msub", Go: map[string]any{"id": 1}}, {Name: "msuper", Go: map[string]any{"id": 1, "tag": "x"}}, {Name: "msuper2", Go: map[string]any{"id": 1, "tag": "x"}},
 		{Name: "mapslice1", Go: yaml.MapSlice{{Key: "a", Value: 1}}}, {Name: "mapslice1w", Go: yaml.MapSlice{{Key: "a", Value: int64(1)}}}, {Name: "mapsliceempty", Go: yaml.MapSlice{}, Small: true},
 		{Name: "mapitems", Go: []yaml.MapItem{{Key: "a", Value: 1}}}, {Name: "mapslicedrop", Go: yaml.MapSlice{{Key: "a", Value: DropV{1}}}},
 		{Name: "methodval", Go: MethodStruct{Title: "Hello World"}}, {Name: "methodptr", Go: &MethodStruct{Title: "Hello World"}}, {Name: "taggeda", Go: TaggedA{"lamp", 5, "SKU-1"}}, {Name: "taggedb", Go: &TaggedB{"ada@example.org", "Ada", 7}},
